@@ -93,10 +93,11 @@ class LoopSpec:
     """Sidecar loop contract: `havoc(cx, frame, i)` installs fresh values for everything the loop modifies,
     `inv(cx, frame, i)` returns [(label, BoolRef)] evaluated on the CURRENT frame values."""
 
-    def __init__(self, havoc, inv, has_break=False):
+    def __init__(self, havoc, inv, has_break=False, post_body=None):
         self.havoc = havoc
         self.inv = inv
         self.has_break = has_break
+        self.post_body = post_body  # optional: [(label, BoolRef)] asserted after one execution of the body only
 
 
 class Interp:
@@ -463,6 +464,9 @@ class Interp:
             except _Break:
                 if not spec.has_break:
                     raise Unsupported("break in a loop whose sidecar contract has no break clause")
+            if spec.post_body is not None:
+                for label, f in spec.post_body(self.cx, frame, i):
+                    self.cx.oblige(f"{_short(key)}.body.{label}", f, function=key[0])
             for label, f in spec.inv(self.cx, frame, i + 1):
                 self.cx.oblige(f"{_short(key)}.inv.step.{label}", f, function=key[0])
             raise PathEnd()
